@@ -24,7 +24,7 @@ def _f(x):
     return np.asarray(x, dtype=float)
 
 
-def halves(p):
+def halves(p, independent=True):
     """The two halves of a pulse from geometry.  The far end of a half is NOT taken from the code's bookkeeping
     (`p.ends`) when the half lies on a real wire: it is the other end of the segment of that wire that touches the
     pulse point (for a half below the ground plane: the mirror image of it)."""
@@ -33,7 +33,7 @@ def halves(p):
     tol = 1e-7 * max(float(np.linalg.norm(e1 - pt)), float(np.linalg.norm(pt - e0)), 1e-300)
     gnd = np.asarray(p.ground)
     for h in (0, 1):
-        segs = getattr(p.geo[h], 'segments', None)
+        segs = getattr(p.geo[h], 'segments', None) if independent else None
         if not segs:
             continue
         cands = []
